@@ -577,6 +577,7 @@ def check_restart(ctx, cfg, ref, rr, image, crash_path, all_names, sig_base, bud
     # same history as the uninterrupted run
     if not cfg["normalize"]:
         ref_final = ref["final"]
+        lacking, got_o = set(), set()
         if cfg.get("observable"):
             # an observable is evaluated by the driver when a NEW point appears: a loaded point whose observable was not
             # yet stored when the run died never gets it (reported apart, with its own signature)
@@ -589,7 +590,12 @@ def check_restart(ctx, cfg, ref, rr, image, crash_path, all_names, sig_base, bud
                     f"the observable there, the uninterrupted run records it (crash path {crash_path}); cfg={cfg}", fatal=False)
                 ref_final = [(x, tuple((n, v) for n, v in o if not (n == "o" and x in lacking - got_o))) for x, o in ref_final]
         if not same_history(final, ref_final, cfg):
-            if budget_stop and not cfg.get("keep_counter_on_restart") and len(final) > len(ref_final) and same_history(final[: len(ref_final)], ref_final, cfg):
+            if cfg.get("observable") and lacking - got_o and len(final) > len(ref_final) and same_history(final[: len(ref_final)], ref_final, cfg):
+                # same finding: the iteration of a point whose observable call killed the run is never completed after the
+                # restart (the point is not new), so neither the observable nor the stopping criteria of that iteration are
+                # evaluated: when that point is the one at which the uninterrupted run stopped, the restarted run goes on
+                ctx.probe("restart_extends_history_after_death_in_observable")
+            elif budget_stop and not cfg.get("keep_counter_on_restart") and len(final) > len(ref_final) and same_history(final[: len(ref_final)], ref_final, cfg):
                 ctx.violate(
                     "C12.same_history", f"{cfg['kind']} reference-stopped-on-max_iter restarted-run-extends-history",
                     f"the uninterrupted run stopped on max_iter={cfg.get('max_iter')} with {len(ref_final)} entries; restarted after crash path {crash_path} "
